@@ -431,10 +431,12 @@ impl TerminalHistory {
 /// to be between alphanumeric characters and non-alphanumeric characters. Eg: `abc+def` has word
 /// boundaries directly before and after the `+` character.
 fn find_word_next(string: &str, cursor: usize, full_word: bool) -> usize {
-    let mut chars = string.char_indices().skip(cursor);
+    // Character indices (as `cursor` is), NOT byte indices
+    let char_count = string.chars().count();
+    let mut chars = string.chars().enumerate().skip(cursor);
     // At end of line (covers empty string case)
     let Some((_, first)) = chars.next() else {
-        return string.len();
+        return char_count;
     };
     if first.is_whitespace() {
         // On a space
@@ -467,7 +469,7 @@ fn find_word_next(string: &str, cursor: usize, full_word: bool) -> usize {
     }
     // No next word found
     // Go to end of line
-    string.len()
+    char_count
 }
 
 /// Return character index of end of the word to the right of cursor. Uses Vim rules.
